@@ -72,6 +72,11 @@ def main():
                 except Exception:
                     pass
         print(json.dumps({"change": os.path.basename(d), "suite_unchanged": suite_ok, "equiv_exit": eq_rc, "checks": results}))
+        if os.environ.get("HARM_RECORD") and meta:
+            meta.setdefault("results", {}).update(results)
+            meta["suite_unchanged"] = suite_ok
+            meta["equiv_exit"] = eq_rc
+            json.dump(meta, open(os.path.join(d, "meta.json"), "w"), indent=1)
     finally:
         sh(["git", "-C", "/repo", "worktree", "remove", "--force", wt])
         shutil.rmtree(tmp, ignore_errors=True)
